@@ -1296,7 +1296,9 @@ impl Prop for AuxPart {
                             let want = yrs::StickyIndex::at(&rtxn, rb, len, assoc);
                             drop(rtxn);
                             let ctxn = cd.write();
-                            let got = ysticky_index_from_index(cb, ctxn, len, if *after { 0 } else { -1 });
+                            // (documented: assoc >= 0 means "after", assoc < 0 "before": several values of each sign)
+                            let assoc_c: i8 = if *after { [0i8, 1, 7, i8::MAX][(*at % 4) as usize] } else { [-1i8, -2, -9, i8::MIN][(*at % 4) as usize] };
+                            let got = ysticky_index_from_index(cb, ctxn, len, assoc_c);
                             ytransaction_commit(ctxn);
                             ensure!(got.is_null() == want.is_none(), "c19/sticky/from-index-null", "{}: ysticky_index_from_index(index {}) null = {}, Rust StickyIndex::at = {:?}", when, len, got.is_null(), want);
                             if let Some(want) = want {
